@@ -1,11 +1,505 @@
 package headsync
 
-import "verifharness/vfutil"
+import (
+	"encoding/hex"
+	"encoding/json"
+	"fmt"
+	"math/rand"
+	"os"
+	"path/filepath"
+	"sort"
+	"strings"
+	"testing"
+
+	"github.com/anyproto/any-sync/commonspace/headsync/headstorage"
+
+	"verifharness/vfutil"
+)
+
+// Random executions on real components. Two uses:
+//   - large spaces (hundreds to thousands of objects, so that the ldiff index is split and ranges are
+//     really exchanged through HandleRangeRequest / NewRemoteDiff), judged by the Go oracles of
+//     steps_test.go;
+//   - small spaces, recorded step by step (action, arguments, what the code handed out, the observed
+//     post-state) into an NDJSON trace that spec/headsync/HeadSyncTrace.tla validates.
 
 type randCase struct {
-	Seed int64 `json:"seed"`
+	Seed    int64 `json:"seed"`
+	Peers   int   `json:"peers"`
+	N       int   `json:"n"`       // tree ids
+	Prefill int   `json:"prefill"` // objects written before the nodes start (FillDiff path), percent
+	Ops     int   `json:"ops"`
+	Acl     bool  `json:"acl"`
+	Kv      bool  `json:"kv"`
+	Bulk    bool  `json:"bulk"` // large space: bulk edits and bulk draining between the rounds
 }
 
-func runRandom(rep *vfutil.Report, c randCase, tw *vfutil.TraceWriter) {}
+var changeNames = []string{"c1", "c2", "c3", "c4"}
 
-func runScenarios(rep *vfutil.Report, only string) {}
+type obsEntry struct {
+	Has bool     `json:"has"`
+	Hd  []string `json:"hd"`
+	Del string   `json:"del"`
+}
+type obsRound struct {
+	St   string `json:"st"`
+	Cur  string `json:"cur"`
+	Nreq int    `json:"nreq"`
+}
+type obsState struct {
+	Idx    map[string]map[string][]string `json:"idx"`
+	Store  map[string]map[string]obsEntry `json:"store"`
+	Online map[string]bool                `json:"online"`
+	Pendn  map[string]int                 `json:"pendn"`
+	Rnd    map[string]obsRound            `json:"rnd"`
+	Tasks  []task                         `json:"tasks"`
+	Hashok map[string]bool                `json:"hashok"`
+}
+type traceLine struct {
+	A   string         `json:"a"`
+	P   string         `json:"p"`
+	Q   string         `json:"q"`
+	I   string         `json:"i"`
+	C   string         `json:"c"`
+	Out map[string]any `json:"out"`
+	Obs *obsState      `json:"obs,omitempty"`
+	Sim *randCase      `json:"sim,omitempty"`
+}
+
+// observe: the projection of the real state that the specification talks about
+func (w *world) observe(ids []string) *obsState {
+	o := &obsState{Idx: map[string]map[string][]string{}, Store: map[string]map[string]obsEntry{}, Online: map[string]bool{},
+		Pendn: map[string]int{}, Rnd: map[string]obsRound{}, Tasks: []task{}, Hashok: map[string]bool{}}
+	for _, p := range w.order {
+		n := w.nodes[p]
+		v, top := n.index()
+		o.Hashok[p] = n.persistedHash() == hex.EncodeToString(top)
+		dec := w.decode(v)
+		o.Idx[p] = map[string][]string{}
+		o.Store[p] = map[string]obsEntry{}
+		for _, id := range ids {
+			t, ok := dec[id]
+			switch {
+			case !ok:
+				o.Idx[p][id] = []string{absentMark}
+			case t == "":
+				o.Idx[p][id] = []string{}
+			default:
+				o.Idx[p][id] = strings.Split(t, "+")
+			}
+			e, ok := n.entry(id)
+			oe := obsEntry{Del: "none", Hd: []string{}}
+			if ok {
+				oe.Del = statusName(e.DeletedStatus)
+				oe.Hd = w.setOf(id, e.Heads)
+			}
+			oe.Has = n.has(id)
+			o.Store[p][id] = oe
+		}
+		for id := range dec {
+			if !contains(ids, id) {
+				o.Idx[p][id] = []string{"?"}
+			}
+		}
+		n.mu.Lock()
+		o.Pendn[p] = len(n.held)
+		o.Online[p] = n.online
+		n.mu.Unlock()
+		rs := n.roundState()
+		o.Rnd[p] = obsRound{St: rs.St, Cur: rs.Cur, Nreq: rs.Nreq}
+	}
+	for t := range w.tasks {
+		o.Tasks = append(o.Tasks, t)
+	}
+	sort.Slice(o.Tasks, func(a, b int) bool { return fmt.Sprint(o.Tasks[a]) < fmt.Sprint(o.Tasks[b]) })
+	return o
+}
+
+type randRun struct {
+	w     *world
+	j     *judge
+	c     randCase
+	rnd   *rand.Rand
+	trees []string
+	ids   []string
+	tw    *vfutil.TraceWriter
+	steps int
+}
+
+func (r *randRun) emit(a, p, q, i, c string, out map[string]any) {
+	r.steps++
+	if r.tw == nil {
+		return
+	}
+	if out == nil {
+		out = map[string]any{"x": 0}
+	}
+	r.tw.Emit(traceLine{A: a, P: p, Q: q, I: i, C: c, Out: out, Obs: r.w.observe(r.ids)})
+}
+
+func (r *randRun) pick(s []string) string { return s[r.rnd.Intn(len(s))] }
+
+// one random enabled action of the specification
+func (r *randRun) step() {
+	w, j := r.w, r.j
+	p := r.pick(w.order)
+	n := w.nodes[p]
+	tag := fmt.Sprintf("rand/p%d/n%d/", r.c.Peers, sizeClass(r.c.N))
+	switch x := r.rnd.Intn(100); {
+	case x < 14: // local change
+		id := r.pick(r.ids)
+		if !n.has(id) || n.tomb(id) {
+			if !w.special(id) && !n.tomb(id) {
+				w.create(p, id)
+				r.emit("Create", p, "-", id, "", nil)
+				j.rep.Case(tag + "Create")
+			}
+			return
+		}
+		e, _ := n.entry(id)
+		have := w.setOf(id, e.Heads)
+		var free []string
+		for _, c := range changeNames {
+			if !contains(have, c) {
+				free = append(free, c)
+			}
+		}
+		if len(free) == 0 {
+			return
+		}
+		c := r.pick(free)
+		w.edit(p, id, c)
+		r.emit("Edit", p, "-", id, c, nil)
+		j.rep.Case(tag + "Edit")
+	case x < 18: // a deletion arrives / the deleter finishes
+		id := r.pick(r.trees)
+		e, ok := n.entry(id)
+		switch {
+		case ok && e.DeletedStatus == headstorage.DeletedStatusQueued:
+			w.deleteFinish(p, id)
+			r.emit("DeleteFinish", p, "-", id, "", nil)
+			j.rep.Case(tag + "DeleteFinish")
+		case !n.tomb(id) && r.deletedIds() < 1+r.c.N/10 || r.deletedSomewhere(id) && !n.tomb(id):
+			w.delete(p, id)
+			r.emit("Delete", p, "-", id, "", nil)
+			j.rep.Case(tag + "Delete")
+		}
+	case x < 21:
+		w.flip(p)
+		r.emit("Flip", p, "-", "", "", nil)
+		j.rep.Case(tag + "Flip")
+	case x < 24:
+		if n.running {
+			return
+		}
+		w.restart(j, p)
+		r.emit("Restart", p, "-", "", "", nil)
+		j.rep.Case(tag + "Restart")
+	case x < 50: // index
+		n.mu.Lock()
+		k := len(n.held)
+		n.mu.Unlock()
+		if k == 0 {
+			return
+		}
+		if r.c.Bulk {
+			w.drainBulk(j, p)
+			j.rep.Case(tag + "DrainBulk")
+			return
+		}
+		u := w.indexApply(j, p)
+		r.emit("IndexApply", p, "-", u.Id, "", map[string]any{"u": map[string]any{"id": u.Id, "hd": w.setOf(u.Id, u.Heads), "del": statusName(u.DeletedStatus)}})
+		j.rep.Case(tag + "IndexApply/" + updKind(u))
+	case x < 82: // round
+		switch st := n.roundState(); st.St {
+		case "idle":
+			w.roundBegin(p)
+			r.emit("RoundBegin", p, "-", "", "", nil)
+			j.rep.Case(tag + "RoundBegin")
+		case "check":
+			res := w.roundCheck(j, p)
+			r.emit("RoundCheck", p, st.Cur, "", "", map[string]any{"res": res})
+			j.rep.Case(tag + "RoundCheck/" + res)
+		case "diff":
+			res, reqs := w.roundDiff(j, p)
+			r.emit("RoundDiff", p, st.Cur, "", "", map[string]any{"res": res, "reqs": reqs})
+			j.rep.Case(fmt.Sprintf("%sRoundDiff/%s/r%d", tag, res, min(reqs, 4)))
+		case "apply":
+			o := w.roundApply(j, p)
+			tombHit := []string{}
+			if o.Called {
+				tombHit = n.calls[len(n.calls)-1].Tomb
+			}
+			r.emit("RoundApply", p, st.Cur, "", "", map[string]any{"missing": nn(o.Missing), "existing": nn(o.Existing), "acl": o.Acl, "kv": o.Kv,
+				"nreq": min(o.Nreq, 2), "tombhit": nn(tombHit)})
+			j.rep.Case(fmt.Sprintf("%sRoundApply/m%d/e%d/n%d", tag, min(len(o.Missing), 2), min(len(o.Existing), 2), min(o.Nreq, 2)))
+		}
+	default: // tree syncer jobs
+		if len(w.tasks) == 0 {
+			return
+		}
+		var ts []task
+		for t := range w.tasks {
+			ts = append(ts, t)
+		}
+		sort.Slice(ts, func(a, b int) bool { return fmt.Sprint(ts[a]) < fmt.Sprint(ts[b]) })
+		k := 1
+		if r.c.Bulk {
+			k = 1 + r.rnd.Intn(len(ts))
+		}
+		r.rnd.Shuffle(len(ts), func(a, b int) { ts[a], ts[b] = ts[b], ts[a] })
+		for _, t := range ts[:k] {
+			eff := w.treeSync(t)
+			r.emit("TreeSync", t.F, t.T, t.I, t.K, map[string]any{"effect": eff})
+			j.rep.Case(fmt.Sprintf("%sTreeSync/%s/%v", tag, t.K, eff))
+		}
+	}
+}
+
+func nn(s []string) []string {
+	if s == nil {
+		return []string{}
+	}
+	return s
+}
+
+func sizeClass(n int) int {
+	switch {
+	case n <= 256:
+		return 0
+	case n <= 8192:
+		return 1
+	default:
+		return 2
+	}
+}
+
+func (r *randRun) deletedIds() int {
+	k := 0
+	for _, id := range r.trees {
+		if r.deletedSomewhere(id) {
+			k++
+		}
+	}
+	return k
+}
+func (r *randRun) deletedSomewhere(id string) bool {
+	for _, p := range r.w.order {
+		if r.w.nodes[p].tomb(id) {
+			return true
+		}
+	}
+	return false
+}
+
+// drainBulk delivers every held notification of p and waits once
+func (w *world) drainBulk(j *judge, p string) {
+	n := w.nodes[p]
+	n.mu.Lock()
+	held := n.held
+	n.held = nil
+	n.mu.Unlock()
+	for _, u := range held {
+		n.hst.deliver(u)
+	}
+	if !w.fence(j, n) {
+		return
+	}
+	w.checkQuiescent(j, n, "drain")
+}
+
+func peerSeqAll(peers []string) map[string][]string {
+	ps := map[string][]string{}
+	for _, p := range peers {
+		for _, q := range peers {
+			if q != p {
+				ps[p] = append(ps[p], q)
+			}
+		}
+	}
+	return ps
+}
+
+func runRandom(rep *vfutil.Report, c randCase, tw *vfutil.TraceWriter) {
+	peers := []string{"p1", "p2", "p3"}[:c.Peers]
+	acl, kv := "", ""
+	if c.Acl {
+		acl = "acl"
+	}
+	if c.Kv {
+		kv = "kv"
+	}
+	rnd := rand.New(rand.NewSource(c.Seed))
+	r := &randRun{c: c, rnd: rnd, tw: tw}
+	for k := 0; k < c.N; k++ {
+		r.trees = append(r.trees, fmt.Sprintf("o%05d", k))
+	}
+	r.ids = append([]string{}, r.trees...)
+	if c.Acl {
+		r.ids = append(r.ids, acl)
+	}
+	if c.Kv {
+		r.ids = append(r.ids, kv)
+	}
+	j := &judge{rep: rep, replay: map[string]any{"kind": "random", "random": c}, tag: fmt.Sprintf("rand/p%d/n%d", c.Peers, c.N)}
+	r.j = j
+	w := newWorld(peers, peerSeqAll(peers), acl, kv)
+	defer w.close()
+	r.w = w
+	if tw != nil {
+		tw.Emit(traceLine{A: "Reset", P: "-", Q: "-", Out: map[string]any{"x": 0}, Sim: &c, Obs: w.observe(r.ids)})
+	}
+	// prefill: objects that are in the head storage before the space is opened (FillDiff), with
+	// different contents on the peers
+	if c.Bulk {
+		for _, p := range w.order {
+			n := w.nodes[p]
+			n.stop()
+			for _, id := range r.trees {
+				if rnd.Intn(100) >= c.Prefill {
+					continue
+				}
+				var set []string
+				for _, ch := range changeNames {
+					if rnd.Intn(3) == 0 {
+						set = append(set, ch)
+					}
+				}
+				n.write(id, w.headsOf(id, set), true)
+			}
+			n.start()
+			w.checkQuiescent(j, n, "open")
+		}
+	}
+	for k := 0; k < c.Ops && !j.stop; k++ {
+		r.step()
+	}
+	if !j.stop {
+		w.settle(j)
+		j.rep.Case(j.tag + "/settle")
+	}
+	rep.AddSteps(r.steps)
+}
+
+func randomCases(seed int64, thorough bool) (cs []randCase) {
+	k := int64(0)
+	add := func(c randCase) { k++; c.Seed = seed*1000 + k; cs = append(cs, c) }
+	for rep := 0; rep < vfutil.Tier(2, 6); rep++ {
+		add(randCase{Peers: 2, N: 40, Prefill: 60, Ops: 150, Acl: true, Kv: true, Bulk: true})
+		add(randCase{Peers: 3, N: 60, Prefill: 50, Ops: 200, Acl: true, Bulk: true})
+	}
+	// the index is split (more than 256 elements): the diff takes several request rounds
+	add(randCase{Peers: 2, N: 700, Prefill: 70, Ops: 120, Acl: true, Kv: true, Bulk: true})
+	add(randCase{Peers: 3, N: 1500, Prefill: 60, Ops: 120, Bulk: true})
+	if thorough {
+		add(randCase{Peers: 2, N: 3000, Prefill: 80, Ops: 150, Acl: true, Kv: true, Bulk: true})
+		// more than 256 elements per first-level bucket: a third level of ranges
+		add(randCase{Peers: 2, N: 12000, Prefill: 85, Ops: 80, Bulk: true})
+	}
+	return
+}
+
+// TestRandom: large random executions judged by the Go oracles.
+func TestRandom(t *testing.T) {
+	rep := vfutil.NewReport(os.Getenv("VERIF_PROPERTY"))
+	defer finish(t, rep)
+	cs := randomCases(vfutil.Seed(), vfutil.Thorough())
+	for _, c := range cs {
+		runRandom(rep, c, nil)
+		rep.AddReplayed(1)
+	}
+	rep.Sample(map[string]any{"random_case": cs[0]})
+	rep.SetExtra("random_cases", len(cs))
+	rep.SetExtra("diff_max_request_rounds", statMaxReqs)
+	rep.SetExtra("diff_max_ranges_per_request", statMaxRange)
+	rep.SetExtra("diffs_with_range_exchange", statMulti)
+	if statMaxReqs < 2 {
+		hpanic("no diff of the large cases exchanged ranges (max %d request rounds)", statMaxReqs)
+	}
+}
+
+// TestRecord: small random executions recorded for HeadSyncTrace.tla. One file per configuration,
+// many runs per file (separated by Reset lines); the constants of each file go to <file>.consts.json.
+func TestRecord(t *testing.T) {
+	rep := vfutil.NewReport(os.Getenv("VERIF_PROPERTY"))
+	defer finish(t, rep)
+	dir := os.Getenv("VERIF_TRACE_DIR")
+	if dir == "" {
+		hpanic("VERIF_TRACE_DIR not set")
+	}
+	runs := vfutil.EnvInt("VERIF_RUNS", 4)
+	corrupt := os.Getenv("VERIF_CORRUPT")
+	confs := []randCase{
+		{Peers: 2, N: 3, Ops: 70, Acl: true, Kv: true},
+		{Peers: 3, N: 4, Ops: 90, Acl: true},
+		{Peers: 2, N: 12, Ops: 120},
+	}
+	events := 0
+	for ci, c := range confs {
+		name := fmt.Sprintf("t%d", ci)
+		path := filepath.Join(dir, name+".ndjson")
+		tw := vfutil.NewTraceWriter(path)
+		for k := 0; k < runs; k++ {
+			c.Seed = vfutil.Seed()*1000 + int64(ci*100+k)
+			runRandom(rep, c, tw)
+			rep.AddReplayed(1)
+		}
+		events += tw.Len()
+		tw.Close()
+		if corrupt != "" {
+			corruptTrace(path, corrupt)
+		}
+		consts := map[string]any{"peers": []string{"p1", "p2", "p3"}[:c.Peers], "trees": treeIds(c.N), "acl": c.Acl, "kv": c.Kv, "changes": changeNames}
+		b, _ := json.Marshal(consts)
+		if err := os.WriteFile(filepath.Join(dir, name+".consts.json"), b, 0o644); err != nil {
+			hpanic("%v", err)
+		}
+	}
+	rep.SetExtra("trace_events", events)
+}
+
+func treeIds(n int) (res []string) {
+	for k := 0; k < n; k++ {
+		res = append(res, fmt.Sprintf("o%05d", k))
+	}
+	return
+}
+
+// corruptTrace falsifies one logged observation (binding self-test): an index entry that the
+// component really holds is logged as absent.
+func corruptTrace(path, what string) {
+	raw, err := os.ReadFile(path)
+	if err != nil {
+		hpanic("%v", err)
+	}
+	lines := strings.Split(strings.TrimSpace(string(raw)), "\n")
+	done := false
+	for k := len(lines) / 2; k < len(lines) && !done; k++ {
+		var l traceLine
+		if json.Unmarshal([]byte(lines[k]), &l) != nil || l.Obs == nil || l.A != "IndexApply" {
+			continue
+		}
+		for p, m := range l.Obs.Idx {
+			for id, h := range m {
+				if len(h) >= 1 && h[0] != absentMark {
+					l.Obs.Idx[p][id] = []string{absentMark}
+					done = true
+					break
+				}
+			}
+			if done {
+				break
+			}
+		}
+		if done {
+			b, _ := json.Marshal(l)
+			lines[k] = string(b)
+		}
+	}
+	if !done {
+		hpanic("nothing to corrupt in %s", path)
+	}
+	if err := os.WriteFile(path, []byte(strings.Join(lines, "\n")+"\n"), 0o644); err != nil {
+		hpanic("%v", err)
+	}
+}
